@@ -23,6 +23,7 @@ objects so they can be GCed
 import (
 	"fmt"
 	"os"
+	"reflect"
 	"runtime/debug"
 	"strings"
 
@@ -443,6 +444,27 @@ func do_DELETE_SUBSCR(vm *Vm, arg int32) error {
 		return err
 	}
 	return nil
+}
+
+// sameObject implements `a is b`. Comparing two interface values with ==
+// panics when their dynamic type is a Go map or slice (dict, tuple, bytes):
+// those are the same object if they share their storage.
+func sameObject(a, b py.Object) bool {
+	ta := reflect.TypeOf(a)
+	if ta != reflect.TypeOf(b) {
+		return false
+	}
+	if ta != nil && !ta.Comparable() {
+		va, vb := reflect.ValueOf(a), reflect.ValueOf(b)
+		switch va.Kind() {
+		case reflect.Map:
+			return va.Pointer() == vb.Pointer()
+		case reflect.Slice:
+			return va.Len() == vb.Len() && (va.Len() == 0 || va.Pointer() == vb.Pointer())
+		}
+		return false
+	}
+	return a == b
 }
 
 // Miscellaneous opcodes.
@@ -1065,9 +1087,9 @@ func do_COMPARE_OP(vm *Vm, opname int32) error {
 		in, err = py.SequenceContains(b, a)
 		r = py.NewBool(!in)
 	case PyCmp_IS:
-		r = py.NewBool(a == b)
+		r = py.NewBool(sameObject(a, b))
 	case PyCmp_IS_NOT:
-		r = py.NewBool(a != b)
+		r = py.NewBool(!sameObject(a, b))
 	case PyCmp_EXC_MATCH:
 		if bTuple, ok := b.(py.Tuple); ok {
 			for _, exc := range bTuple {
